@@ -30,6 +30,8 @@ ApplyCmd ==
   /\ l <= Len(Tr.events) /\ ci <= Len(Ev.cmds)
   /\ LET c == Ev.cmds[ci] IN
        \/ c[1] = "produce" /\ Produce(c[2])
+       \* the gate of a source whose task the `finally` block has just cancelled (same batch): nothing happens
+       \/ c[1] = "produce" /\ mpc = "closed" /\ task[c[2]] = "none" /\ UNCHANGED vars
        \/ c[1] = "pull" /\ Pull
   /\ ci' = ci + 1 /\ UNCHANGED <<tid, l>>
 
